@@ -11,7 +11,7 @@ TECH = "contract-based deductive verification: weakest-precondition VCs generate
 CLAIMED = {
  "C39": (
   "Deductive proof, for all inputs and all loop iterations, of the contracts of util/ordset's leaf node (binary search result characterisation; insert: index-wise whole-view post-condition, representation invariant preserved, frame, no run-time panic, termination of the search loop). Top-level post-conditions are taken from the property statement (set semantics of insert/membership).",
-  "Also proved: ordset tree level searches, Contains, AnyInRange and treeNode.insert (sortedness), and util/ranges at leaf level: searchBinary (first lower end >= val), leafSlot.contains, overlap, merge (overlapping ranges become their union, others untouched), leafNode.insert (existing only when a neighbouring range contains the new one, overflow only when full, otherwise inserted in order with all other ranges kept), and Ranges.Contains on a single-leaf set with disjoint ordered ranges: no false negatives and no false positives. Scope: NOT covered: ordset Set.Insert/split and Ranges.Insert with the coalescing iterator and split (did not discharge / multi-leaf iterator), Ranges.Contains over a tree, sortlist, bloom, roaring, shmap, lrucache, cache. Strings are abstracted as a totally ordered sort (sound for comparison-only code). Sequential semantics only.",
+  "Also proved: ordset tree level searches, Contains, AnyInRange and treeNode.insert (sortedness), and util/ranges at leaf level: searchBinary (first lower end >= val), leafSlot.contains, overlap, merge (overlapping ranges become their union, others untouched), leafNode.insert (existing only when a neighbouring range contains the new one, overflow only when full, otherwise inserted in order with all other ranges kept), the tree level searches, and Ranges.Contains over the whole set (single leaf or one level tree of leaves with disjoint ordered ranges): no false negatives and no false positives. Scope: NOT covered: ordset Set.Insert/split and Ranges.Insert with the coalescing iterator and split (did not discharge / multi-leaf iterator), sortlist, bloom, roaring, shmap, lrucache, cache. Strings are abstracted as a totally ordered sort (sound for comparison-only code). Sequential semantics only.",
   "DESIGN.md §4 C39"),
  "C38": (
   "Deductive proof, for all byte strings, of the reference semantics of util/ascii (exact byte sets, ToLower/ToUpper, Digit) and util/str (CmpLower = lexicographic comparison of lower-cased strings, EqualCI, ToLower/ToUpper pointwise with input unmodified, CommonPrefix/CommonPrefixLen maximality, Subi/Subn, Cut), including index-bounds safety, overflow freedom and termination of every loop.",
